@@ -24,7 +24,7 @@ from ..common import MachineryError, NCPU
 from .. import build, tlc, run
 
 LEX_CFG = {"quick": "LexModes_quick", "thorough": "LexModes_thorough"}
-TIMEOUT = {"hooked": 10, "asan": 40}
+TIMEOUT = {"hooked": 10, "asan": 40}     # seconds for an input below 10 kB; x6 for inputs above 100 kB
 SYM = {"a": "a", "0": "0", "dq": '"', "sq": "'", "bs": "\\", "nl": "\n", "hash": "#", "sl": "/", "st": "*",
        "lp": "(", "rp": ")", "lt": "<", "gt": ">", "sp": " ", "R": "R", "cm": ",", "dt": ".", "eq": "=",
        "pc": "%", "define": "define", "if": "if", "else": "else", "endif": "endif", "include": "include"}
@@ -49,7 +49,8 @@ def fn_macros(text):
 
 
 def p_macro_self_recursion(text):
-    """A function-like macro reachable from its own replacement list is invoked."""
+    """A function-like macro reachable from its own replacement list is invoked, or a function-like
+    macro is invoked with its own name among the arguments."""
     fm = fn_macros(text)
     if not fm:
         return False
@@ -65,7 +66,10 @@ def p_macro_self_recursion(text):
                 reach[k], changed = new, True
     selfr = [k for k in reach if k in reach[k]]
     body = re.sub(r"^[ \t]*#[ \t]*define.*(?:\\\n.*)*$", "", text, flags=re.M)
-    return any(re.search(r"\b%s\s*\(" % re.escape(k), body) for k in selfr)
+    if any(re.search(r"\b%s\s*\(" % re.escape(k), body) for k in selfr):
+        return True
+    # ... or is handed its own name as an argument (the name comes back through the parameter)
+    return any(re.search(r"\b%s\s*\([^()]*\b%s\b" % (re.escape(k), re.escape(k)), body) for k in fm)
 
 
 def max_adjacent(rx, text):
@@ -104,12 +108,12 @@ IF_LINE = re.compile(r"^[ \t]*#[ \t]*(?:el)?if[ \t(]([^\n]*)$", re.M)
 
 def p_div_zero(text):
     """`/` or `%` whose right operand is a zero-valued literal or a parenthesised `n-n`; in the
-    controlling expression of #if / #elif (where an undefined identifier counts as 0) also one
-    whose right operand starts with an identifier."""
+    controlling expression of #if / #elif (where undefined identifiers, empty character literals
+    and the like count as 0) every one whose right operand does not start with a non-zero digit."""
     if re.search(r"[/%][ \t]*(?:\([ \t]*)*(0[xX]0+|0+(?:\.0*)?)(?![\w.'])", text) or \
             re.search(r"[/%][ \t]*\([ \t]*(\d+)[ \t]*-[ \t]*\1[ \t]*\)", text):
         return True
-    return any(re.search(r"[/%][ \t]*(?:[-+!~(][ \t]*)*[A-Za-z_]", m.group(1)) for m in IF_LINE.finditer(text))
+    return any(re.search(r"[/%](?![ \t]*[1-9])", m.group(1)) for m in IF_LINE.finditer(text))
 
 
 def p_div_overflow(text):
@@ -127,9 +131,24 @@ def p_template_depth(text):
     return max_adjacent(re.compile(r"(?<!\w)%s[ \t]*<[ \t]*" % ID), text) > 100
 
 
+EXPR_DEPTH = {"hooked": 50000, "asan": 4000}     # the sanitizer build has larger stack frames
+BUILD_KIND = ["hooked"]
+
+
 def p_expr_depth(text):
-    """A constant expression chaining more than 50000 binary operators (on one line)."""
-    return any(len(ln) > 100000 and max(ln.count(c) for c in "+-*|&") > 50000 for ln in text.split("\n"))
+    """A constant expression chaining more than 50000 binary operators on one line (4000 under the
+    sanitizer build, whose frames are larger)."""
+    n = EXPR_DEPTH[BUILD_KIND[0]]
+    return any(len(ln) > 2 * n and max(ln.count(c) for c in "+-*|&") > n for ln in text.split("\n"))
+
+
+def p_arith_ub(text):
+    """Integer arithmetic of an evaluated constant expression leaves the range of int: a shift whose
+    count is a literal >= 32, negative or itself a shift, a shift of a negative literal, or + - * /
+    unary minus on the literals 2147483647 / 2147483648.  (Only the sanitizer build notices.)"""
+    return bool(re.search(r"(<<|>>)[ \t]*\(?[ \t]*(-|\d{3,}|3[2-9]|[4-9]\d|\(?1<<)", text)) or \
+        bool(re.search(r"-[ \t]*\d+[ \t]*<<", text)) or \
+        bool(re.search(r"214748364[78]", text) and re.search(r"214748364[78]\)*[ \t]*[-+*<]|[-+*][ \t]*\(*214748364[78]|-\(-214748364", text))
 
 
 def p_array_dims(text):
@@ -146,6 +165,7 @@ CLASSES = [
     ("C15-template-nesting-depth", p_template_depth),
     ("C15-expr-depth-recursion", p_expr_depth),
     ("C15-array-dims-cubic", p_array_dims),
+    ("C15-const-arith-ub", p_arith_ub),
 ]
 
 
@@ -406,7 +426,7 @@ def materialise(j):
         open(os.path.join(j.dir, "use.h"), "w").write("int v = VAL;\n#if VAL\n#endif\nclass K { int f(int = VAL); };\n")
 
 
-def execute(j, kind):
+def execute(j, kind, scale=1):
     materialise(j)
     tr = os.path.join(j.dir, "trace.ndjson")
     env = {"SOURCE_DATE_EPOCH": "1"}
@@ -414,15 +434,12 @@ def execute(j, kind):
         env["ASAN_OPTIONS"] = "detect_leaks=0:abort_on_error=0:exitcode=97"
         env["UBSAN_OPTIONS"] = "print_stacktrace=0:halt_on_error=1:exitcode=98"
     outs = ["o.cxx", "o.in"] if j.req else []
-    r = None
-    for attempt in (1, 2):            # a timeout is re-run once before it counts as a hang
-        for o in outs + ["trace.ndjson"]:
-            p = os.path.join(j.dir, o)
-            if os.path.exists(p):
-                os.remove(p)
-        r = run.run_tool(j.tool, j.args, cwd=j.dir, trace=tr, timeout=TIMEOUT[kind], env=env, kind=kind, outputs=outs)
-        if not r.timed_out:
-            break
+    for o in outs + ["trace.ndjson"]:
+        p = os.path.join(j.dir, o)
+        if os.path.exists(p):
+            os.remove(p)
+    limit = TIMEOUT[kind] * (1 if len(j.text) < 100000 else 6) * scale
+    r = run.run_tool(j.tool, j.args, cwd=j.dir, trace=tr, timeout=limit, env=env, kind=kind, outputs=outs)
     ev = []
     if os.path.exists(tr):
         for ln in open(tr, errors="replace"):
@@ -441,7 +458,7 @@ def verdict(j):
     """The ToolRun protocol on the monitor record of one run.  Returns None or (kind, text)."""
     o = j.res
     if o["timed_out"]:
-        return "hang", "no exit within the time limit (twice)"
+        return "hang", "no exit within the time limit (run twice, the second time with twice the limit)"
     if o["signal"]:
         return "signal", "died with signal %d" % o["signal"]
     if o["sanitizer"] or o["rc"] in (97, 98):
@@ -481,6 +498,7 @@ def lex_coverage(recs):
 
 def run_check(ctx):
     kind = "asan" if ctx.tier == "thorough" else "hooked"
+    BUILD_KIND[0] = kind
     build.ensure("hooked")
     if kind == "asan":
         build.ensure("asan")
@@ -501,7 +519,8 @@ def _run(ctx, tier, kind, work, phase, t0):
     ctx.add_tlc(res)
     tlc.must_ok(res, "ToolRun (protocol)")
     dump = os.path.join(work, "lex.ndjson")
-    lex = tlc.run("LexModesMC", LEX_CFG[tier], env={"VERIF_DUMP": dump}, timeout=1500)
+    # one worker: BFS order, hence the representative kept per VIEW value, is then deterministic
+    lex = tlc.run("LexModesMC", LEX_CFG[tier], env={"VERIF_DUMP": dump}, timeout=2400, workers=1)
     ctx.add_tlc(lex)
     tlc.must_ok(lex, "LexModes")
     recs = tlc.read_dump(dump)
@@ -522,7 +541,8 @@ def _run(ctx, tier, kind, work, phase, t0):
 
     # ---- 2. inputs --------------------------------------------------------------------------
     lex_inputs = []
-    for r in recs:
+    stride = max(1, int(os.environ.get("VERIF_C15_STRIDE", "1")))     # development aid only (smoke tests)
+    for r in recs[::stride]:
         if r["mac"] != "none" and "a" not in r["i"]:
             continue            # the prelude only matters to inputs that mention `a`
         text = PRELUDE[r["mac"]] + "".join(SYM[c] for c in r["i"])
@@ -531,7 +551,8 @@ def _run(ctx, tier, kind, work, phase, t0):
 
     def lex_modes(idx, name, text):
         if tier == "thorough":
-            return ["pf", "ig"] + (["inc"] if idx % 4 == 0 else []) + (["N"] if idx % 4 == 1 else []) + (["D"] if idx % 4 == 2 else [])
+            return ["pf"] + (["ig"] if idx % 8 == 0 else []) + (["inc"] if idx % 32 == 1 else []) + \
+                (["N"] if idx % 32 == 2 else []) + (["D"] if idx % 32 == 3 else [])
         m = ["pf"]
         if idx % 2 == 0:
             m.append("ig")
@@ -570,6 +591,11 @@ def _run(ctx, tier, kind, work, phase, t0):
     # long-running edge cases first so that they overlap with the mass of tiny ones
     order = sorted(jobs, key=lambda j: -len(j.text))
     run.pmap(lambda j: execute(j, kind), order)
+    # a timeout is re-run once, with twice the limit and a quarter of the parallelism (so that the
+    # load this check itself produces cannot make a slow run look like a hang), before it counts
+    late = [j for j in jobs if j.res["timed_out"]]
+    run.pmap(lambda j: execute(j, kind, scale=2), late, workers=max(2, NCPU // 4))
+    ctx.notes["timeouts_first_pass"] = len(late)
     phase["runs"] = round(time.time() - t1, 1)
     bad, good = [], []
     kinds = {}
@@ -618,7 +644,7 @@ def _run(ctx, tier, kind, work, phase, t0):
     ctx.notes["build"] = kind
     ctx.notes["not_done"] = "no random byte-level mutation fuzzing (not a model-based technique); bounded enumeration over the mode model instead"
     ctx.assumptions += [
-        "time limit per run: %d s on this machine, a timeout is re-run once" % TIMEOUT[kind],
+        "time limit per run: %d s (%d s for inputs above 100 kB) on this machine; a timeout is re-run once with twice the limit" % (TIMEOUT[kind], 6 * TIMEOUT[kind]),
         "RLIMIT_NOFILE is lowered to 1024 for the runs: a self-including file recurses until open() fails",
         "known-finding classes are predicates over the input text (vf/checks/c15.py CLASSES)",
     ]
